@@ -24,10 +24,10 @@ ASSUMPTIONS = ['admissible readings: constraint kinds = 8 keywords (weekday once
 REQUIRED_CLASSES = ['mode_switch_on_same_file', 'kind_used_twice', 'priority_decides', 'pattern_count_decides', 'constraints_decide', 'length_decides', 'exact_tie', 'keyword_in_text',
                     'same_match_diff_priority', 'subcategory_from_other_rule']
 
-DESC = 'HOLIDAY INN PAYDAY LOAN AMOUNT DUE SOURCE UBER EATS 4521 FIELD TRIP'
+DESC = 'HOLIDAY INN PAYDAY LOAN AMOUNT DUE SOURCE UBER EATS 4521 FIELD TRIP LOWE\'S HOME 24" MON'
 TXN = {'description': DESC, 'amount': 120.5, 'date': '2024-06-15', 'field': {'type': 'WIRE', 'memo': 'REF 77'}, 'source': 'Amex', 'location': 'WA'}
 # 2024-06-15 is a Saturday -> weekday 5
-TEXTS = ['UBER', 'UBER EATS', 'HOLIDAY INN', 'HOLIDAY', 'PAYDAY LOAN', 'PAYDAY', 'AMOUNT DUE', 'SOURCE', 'EATS', 'INN', '4521', 'LOAN AMOUNT',
+TEXTS = ["LOWE'S HOME", "LOWE'S", 'S HOME 24" MON', '24" MON', 'UBER', 'UBER EATS', 'HOLIDAY INN', 'HOLIDAY', 'PAYDAY LOAN', 'PAYDAY', 'AMOUNT DUE', 'SOURCE', 'EATS', 'INN', '4521', 'LOAN AMOUNT',
          'FIELD TRIP', 'DUE', 'E', 'HOLIDAY INN PAYDAY LOAN']
 NOT_IN = ['LYFT', 'NETFLIX', 'MONDAY']
 TRUE_CONSTRAINTS = {
@@ -123,20 +123,22 @@ def rule_set(draw):
 # ------------------------------------------------------------------------------------------------
 # reference ranks
 # ------------------------------------------------------------------------------------------------
-def ingredients(match):
+def ingredients(match, raw=False):
+    """`raw`: pattern text measured as written in the file (escapes included) rather than as the text it denotes - the statement does not say which"""
+    L = (lambda x: len(lang.lit(x)) - 2) if raw else len
     pat_calls, names, lit_all, lit_pat = 0, set(), 0, 0
     for n in lang.walk(match):
         k = n[0]
         if k == 'match':
             pat_calls += 1
-            lit_all += len(n[3])
-            lit_pat += len(n[3])
+            lit_all += L(n[3])
+            lit_pat += L(n[3])
         elif k == 'anyof':
             pat_calls += 1
-            lit_all += sum(len(x) for x in n[1])
-            lit_pat += sum(len(x) for x in n[1])
+            lit_all += sum(L(x) for x in n[1])
+            lit_pat += sum(L(x) for x in n[1])
         elif k == 'str':
-            lit_all += len(n[1])
+            lit_all += L(n[1])
         elif k in ('name', 'txn'):
             if n[1].lower() in GROUP:
                 names.add(n[1].lower())
@@ -148,11 +150,12 @@ def ingredients(match):
 def ranks(rule):
     """rank tuple under each admissible reading."""
     pc, names, la, lp = ingredients(rule['match'])
+    _, _, ra, rp = ingredients(rule['match'], raw=True)
     prio = 50 if rule['priority'] is None else rule['priority']
     kindsA = len(names)
     kindsB = len(names | ({'day'} if 'weekday' in names else set()))
     kindsC = len({GROUP[x] for x in names})
-    return [(prio, pc, kk, ll) for kk in (kindsA, kindsB, kindsC) for ll in (la, lp)]
+    return [(prio, pc, kk, ll) for kk in (kindsA, kindsB, kindsC) for ll in (la, lp, ra, rp)]
 
 
 def top_set(cands, file_order):
@@ -160,7 +163,7 @@ def top_set(cands, file_order):
     if not cands:
         return set()
     tops = []
-    for r in range(6):
+    for r in range(12):
         best = max(ranks(cands[i])[r] for i in cands)
         tops.append(frozenset(i for i in cands if ranks(cands[i])[r] == best))
     return set(tops[0]) if len(set(tops)) == 1 else None
